@@ -38,8 +38,10 @@ PARTIAL = ("CPython object aliasing outside the fields the code copies explicitl
            "(BuildOut, DeployAddressMapper, Mapper, Profiler, CoverageReporter, logger_unique), z3's own global state and "
            "the timing of --early-exit cannot be exhibited by the Coq model; they are monitored by the L2 fingerprint "
            "checks and the repeated in-process L3 runs only. Deep copies are modelled as copies to depth 8. The push/pop scope "
-           "protocol of the z3 solver shared by sibling Paths (Path.branch / Path.activate) is not modelled: the solver is a shared "
-           "field by design; a wrong scope would show up in the L2 leaf re-derivation. With --early-exit the L3 runs use a "
+           "protocol of the z3 solver shared by sibling Paths (Path.branch / Path.activate) is modelled for two-way branches over decision trees only "
+           "(Model/SolverLifeModel.v: what a run leaves in the solver, tied to solver.assertions() of the real runs); a wrong scope elsewhere would show up "
+           "in the L2 leaf re-derivation. The quick membership answers of Exec.check (condition or its negation already in Path.conditions), "
+           "`unknown` answers and the loop bound are outside that model. With --early-exit the L3 runs use a "
            "deterministic fast-solver schedule (every query answered before the path loop continues).")
 ASSUMPTIONS = [
     "Spec.exec_need / Spec.path_need (how deep each Exec / Path field is mutated in place) were written by reading sevm.py; "
@@ -50,6 +52,8 @@ ASSUMPTIONS = [
     "a configuration of the runner model is an integer; what a target transaction reaches is a function of the exploring configuration and the "
     "pre-state (cstep); in the L3 correspondence a configuration is identified with its loop bound",
     "C20_rename_verdict assumes a sound and complete solver (hypotheses in the statement); real solvers may time out",
+    "C20_state_runs_isolated holds for every solver answer function; that mk_solver returns a new empty solver and reset() leaves no assertion / scope "
+    "is checked on the source text and on the real functions by T-solverlife; a frontier state as the test sees it is (sliced conditions, decision tree of the test)",
     "the extracted model and driver are faithful to the Coq definitions (extraction is trusted)",
 ]
 
